@@ -15,6 +15,19 @@ impl World {
         let c07 = self.on("C07") || c08;
         let c14 = self.on("C14");
         if !c07 && !c14 {
+            // reach probe only: was this reply cut short by the datagram limit?
+            if let Some(deltas) = codec::group_ops(ops) {
+                let cut = deltas.iter().any(|nd| match view.get(&nd.id) {
+                    Some(copy) => {
+                        let complete = if nd.kvs.is_empty() { nd.has_setmax || copy.mv <= nd.from } else { nd.max >= copy.entries.values().map(|e| e.version).max().unwrap_or(0) };
+                        !complete
+                    }
+                    None => false,
+                });
+                if cut {
+                    self.stats.inc("probe_mtu_truncation");
+                }
+            }
             return Ok(());
         }
         let Some(deltas) = codec::group_ops(ops) else {
